@@ -44,6 +44,22 @@ REFS = {
 }
 SQRT_REFS = {'STDEV': 0, 'STDEV.S': 0, 'STDEV.P': 1, 'STDEVP': 1}
 NEED2 = ('VAR', 'VAR.S', 'STDEV', 'STDEV.S')
+EPS = Fr(1, 2 ** 52)
+
+
+def data_tolerance(xs, second_moment=False):
+    """What a careful floating-point evaluation may lose on these data, as an absolute amount: a few rounding errors at the
+    scale of the items (times the spread for second moments).  It is added to the 1e-9 band so that ill-conditioned data
+    (a large common offset) do not raise an alarm, while a one-pass variance (error ~ eps * mean^2) still does."""
+    M = max(abs(Fr(x)) for x in xs)
+    S = max(map(Fr, xs)) - min(map(Fr, xs))
+    t = 8 * len(xs) * EPS * M
+    return t * max(1, S) if second_moment else t
+
+
+def near(g, ref, extra):
+    return finite(g) and abs(Fr(g) - Fr(ref)) <= Fr(1, 10 ** 9) * max(1, abs(Fr(ref))) + extra
+
 PROPAGATING = ('SUM', 'PRODUCT', 'AVERAGE', 'MIN', 'MAX', 'MEDIAN')
 
 
@@ -141,6 +157,12 @@ class Check(FormulaCheck):
         return ','.join(parts), shapes
 
     def numbers(self, rnd, n):
+        if rnd.random() < 0.12:
+            # a large common offset with a small spread (one-pass variance formulas cancel here), or identical items
+            off = rnd.choice([1e5, 1e6, 123456.5, 1e8, -2.5e7, 1000.25])
+            if rnd.random() < 0.25:
+                return [rnd.choice([0.7, 100000.1, 3.3, off])] * n
+            return [off + round(rnd.uniform(-1, 1), rnd.randint(1, 3)) for _ in range(n)]
         return [rnd.choice([rnd.randint(-50, 50), rnd.randint(-5, 5), round(rnd.uniform(-100, 100), rnd.randint(1, 3)), rnd.choice([0.5, 0.25, -1.75, 2.5])]) for _ in range(n)]
 
     def c_lists(self, spec, rec):
@@ -163,22 +185,26 @@ class Check(FormulaCheck):
                     rec.nt((f, tuple(arr) if 'v_list' in f or 'B2' in f else ()))
                     for s in shapes:
                         rec.cov('function_x_shape', (fn, s))
+                    if ref is not None and abs(ref) > Fr(10) ** 300:
+                        rec.count('skipped.overflow')
+                        continue
                     if ref is not None:
-                        ok = finite(g) and close(g, ref)
+                        ok = near(g, ref, data_tolerance(xs, fn.startswith('VAR')))
                     else:
                         v = var(xs, SQRT_REFS[fn])
-                        ok = finite(g) and g >= 0 and close(g * g, v, Fr(1, 10 ** 8)) if v > 0 else (finite(g) and abs(g) < 1e-6)
+                        ok = (finite(g) and g >= 0 and abs(Fr(g) ** 2 - v) <= Fr(1, 10 ** 8) * max(1, v) + data_tolerance(xs, True)) if v > 0 else (finite(g) and abs(g) <= 1e-15)
                     self.expect('C11/%s:differs-from-definition' % fn, ok, formula=f[:300], items=arr, got=g, expected=float(ref) if ref is not None else 'sqrt(%s)' % float(var(xs, SQRT_REFS[fn])))
-                if all(finite(g) for g in got):
-                    self.expect('C11/%s:changes-under-reordering-or-regrouping' % fn, abs(got[0] - got[1]) <= 1e-9 * max(1, abs(got[0])), items=xs, got=got)
+                if len(got) == 2 and all(finite(g) for g in got):
+                    self.expect('C11/%s:changes-under-reordering-or-regrouping' % fn,
+                                abs(Fr(got[0]) - Fr(got[1])) <= Fr(1, 10 ** 9) * max(1, abs(Fr(got[0]))) + 2 * data_tolerance(xs, fn.startswith(('VAR', 'STDEV'))), items=xs, got=got)
             pos = [abs(x) + 0.5 for x in xs]
             txt, _ = self.render(pos, rnd)
             g = self.ev('GEOMEAN(%s)' % txt)
             ref = math.exp(sum(math.log(x) for x in pos) / len(pos))
-            self.expect('C11/GEOMEAN:differs-from-definition', finite(g) and abs(g - ref) <= 1e-9 * max(1, ref), items=pos, got=g, expected=ref)
+            self.expect('C11/GEOMEAN:differs-from-definition', finite(g) and abs(g - ref) <= 1e-9 * max(1, ref) + float(data_tolerance(pos)), items=pos, got=g, expected=ref)
             txt, _ = self.render(pos, rnd)
             g = self.ev('HARMEAN(%s)' % txt)
-            self.expect('C11/HARMEAN:differs-from-definition', finite(g) and close(g, len(pos) / sum(1 / Fr(x) for x in pos)), items=pos, got=g)
+            self.expect('C11/HARMEAN:differs-from-definition', near(g, len(pos) / sum(1 / Fr(x) for x in pos), data_tolerance(pos)), items=pos, got=g)
             k = rnd.randint(1, n)
             g = self.ev('LARGE({%s},%d)' % (','.join(L(x) for x in xs), k))
             self.expect('C11/LARGE:differs-from-definition', finite(g) and close(g, sorted(map(Fr, xs), reverse=True)[k - 1]), items=xs, k=k, got=g)
@@ -198,7 +224,7 @@ class Check(FormulaCheck):
                 if den == 0:
                     ok = g == 'ERR:#DIV/0!'
                 else:
-                    ok = finite(g) and close(g, sum((Fr(x) - xm) * (Fr(y) - ym) for x, y in zip(px, xs)) / den)
+                    ok = near(g, sum((Fr(x) - xm) * (Fr(y) - ym) for x, y in zip(px, xs)) / den, data_tolerance(xs) * 40)
                 self.expect('C11/SLOPE:differs-from-definition', ok, ys=xs, xs=px, got=g)
                 rec.nt(('slope', tuple(xs), tuple(px)))
             rec.sample({'items': xs, 'example': 'AVERAGE(%s)' % self.render(xs, rnd)[0][:120]})
